@@ -314,12 +314,7 @@ func (h *Handler) HandleCreateFile(ctx *Context, path string) error {
 	}
 
 	// path is a directory -> closing file, just return
-	stat, err := h.Fs.Stat(path)
-	if err != nil {
-		log.WarnContext(ctx, "Stat failed", logutil.ErrorAttr(err))
-		return err
-	}
-	if stat.IsDir() {
+	if stat, err := h.Fs.Stat(path); err == nil && stat.IsDir() {
 		return nil
 	}
 
